@@ -7,6 +7,7 @@
  3. git -C /repo apply the patch, run ./check <id> --tier quick for the given ids (default: PID), undo with git checkout.
 """
 import json, os, re, shutil, subprocess, sys, time
+os.environ["VERIF_EVIDENCE_DIR"] = "/tmp/seed-evidence"; os.environ["VERIF_REPLAY_DIR"] = "/tmp/seed-replay"
 
 args = [a for a in sys.argv[1:] if not a.startswith("--")]
 RERUN = "--rerun" in sys.argv          # only re-run the checks against an already confirmed seed in /verif/seeded
